@@ -32,6 +32,16 @@ add("C02",
     "Trusts the reference evaluator and the exact lattice; callables are smooth polynomials compared at rtol 1e-12; "
     "dtype of field-source results and dimension name 'r' in Field.line are not asserted (DESIGN section 6).")
 
+add("C03",
+    "Hypothesis recursive strategy of expression trees, evaluated on Field objects and on raw numpy arrays "
+    "(differential oracle); operand snapshots; a*b vs b*a metadata",
+    "Generated-input search over typed expression trees (depth <= 3, both operand orders, numbers/vectors/arrays/"
+    "numpy scalars, int/float/complex, masks, custom labels, permuted mappings); the result must be a Field on the "
+    "same mesh whose array equals the numpy evaluation (rtol 1e-12), every operand must be byte-identical afterwards, "
+    "commutative forms must agree in labels and mapping, and mismatching meshes / component counts must raise.",
+    "Trusts numpy broadcasting as the reference; ufunc / numpy-scalar-left results are checked for values only; "
+    "stacked components are compared by array, validity and default labels (scalar components carry no label).")
+
 PENDING = {}
 
 
